@@ -118,7 +118,12 @@ def run_objdump(args, timeout=120):
             twin = os.path.join(cwd, bare)
             if os.path.lexists(twin):
                 os.unlink(twin)
-            os.link(path, twin)
+            try:
+                os.link(path, twin)
+            except OSError:  # a file system without hard links
+                import shutil
+
+                shutil.copyfile(path, twin)
             args = list(args[:-1]) + [bare]
     p = subprocess.run([OBJDUMP, *args], capture_output=True, text=True, timeout=timeout, cwd=cwd)
     return p.returncode, p.stdout, p.stderr
